@@ -228,6 +228,20 @@ def other_protocols_round_trip(tier, seed):
       ig = pkt.igmp(ver_and_type=[0x11, 0x12, 0x16, 0x17][n % 4], address=IPAddr(0xe0000000 + n), max_response_time=n * 6)
       return check_roundtrip(eth(0x800, ip(2, ig)))
     yield ("igmp %d" % n, igmp_case)
+    def igmp_extra_case(n=n):
+      # an IGMPv3 query: the v2 header followed by further fields (kept in .extra), which the checksum covers as well (added
+      # 2026-09-25 after seeded change C14_11 summed the first eight bytes only)
+      ig = pkt.igmp(ver_and_type=0x11, address=IPAddr(0xe0000000 + n), max_response_time=n * 6)
+      ig.extra = bytes([n & 7, 125, 0, n % 3]) + bytes(range(4 * (n % 3)))
+      r = check_roundtrip(eth(0x800, ip(2, ig)))
+      if r:
+        return r
+      p = eth(0x800, ip(2, ig)).pack()
+      msg = p[14 + 20:]
+      if rfc1071(msg[:2] + b"\0\0" + msg[4:]) != int.from_bytes(msg[2:4], "big"):
+        return "IGMP checksum %#x is not the RFC 1071 checksum of the %d byte message" % (int.from_bytes(msg[2:4], "big"), len(msg))
+      return None
+    yield ("igmp v3 query with %d extra bytes" % (4 + 4 * (n % 3)), igmp_extra_case)
     def rip_case(n=n):
       r = pkt.rip()
       r.command = 1 + n % 2
